@@ -56,11 +56,17 @@ def assign_canonical_labels(m: nx.Graph) -> dict[int, int]:
     """
 
     m_igraph = iGraph.from_networkx(m)
-    old_labels = m_igraph.vs["_nx_name"]
     partitions = m_igraph.vs[PARTITION]
-    canonical_labels = m_igraph.canonical_permutation(color=partitions)
+    canonical_permutation = m_igraph.canonical_permutation(color=partitions)
+    # Whether a permutation vector maps old to new vertex indices or vice versa
+    # differs between igraph versions. Applying the permutation is unambiguous:
+    # vertex k of the permuted graph is the vertex with canonical label k.
+    m_igraph_canonical = m_igraph.permute_vertices(canonical_permutation)
+    old_labels_in_canonical_order = m_igraph_canonical.vs["_nx_name"]
 
-    return dict(zip(old_labels, canonical_labels))
+    return dict(
+        zip(old_labels_in_canonical_order, range(len(old_labels_in_canonical_order)))
+    )
 
 
 def canonicalize_molecule(m: nx.Graph) -> nx.Graph:
